@@ -25,8 +25,16 @@
                        encoded frame restricted to the encoder's channel set
    Pinned beyond the property: laziness itself (that seqNum only moves inside
    Encode/Decode) and the exact seq numbers; a mismatch there alone is drift.
-   Not modelled: the 50-slot capacity of c.mu.updates (Update blocks beyond it), Update
-   racing with Encode/Decode on another goroutine (Update sets the flag before it pushes).   *)
+   Named deviation (guard constant SplitUpdate): Codec.update is two steps, FIRST
+   updateAvailable.Store(true), THEN the push on c.mu.updates. In the http framer codec
+   Update runs on the connection's receiving goroutine (decodeStreamRequest /
+   decodeIteratorRequest / decodeWriteRequest) while Encode runs on the sending one. With
+   SplitUpdate = TRUE the two steps are separate actions and TLC finds NoStrandedUpdate /
+   EncodeUsesLatest violated: an Encode between them consumes the flag, finds the queue
+   empty, and the state pushed afterwards is never applied until the next Update. With
+   SplitUpdate = FALSE (Update called from the encoding/decoding goroutine, which is what
+   the sequential replay exercises) Update is atomic and every invariant holds.
+   Not modelled: the 50-slot capacity of c.mu.updates (Update blocks beyond it).              *)
 EXTENDS Integers, Sequences, FiniteSets, TLC
 
 CONSTANTS KeySets,      \* channel sets an Update may install (sets of keys)
@@ -34,7 +42,8 @@ CONSTANTS KeySets,      \* channel sets an Update may install (sets of keys)
           MaxUpdates,   \* length bound of the script
           MaxInFlight,  \* frames on the wire
           MaxEncodes,   \* total frames encoded
-          Apart         \* max |issued[enc] - issued[dec]|
+          Apart,        \* max |issued[enc] - issued[dec]|
+          SplitUpdate   \* TRUE: Codec.update as its two separate steps (flag, then push)
 
 Sides == {"enc", "dec"}
 VARIABLES script,   \* agreed sequence of channel sets
@@ -43,8 +52,10 @@ VARIABLES script,   \* agreed sequence of channel sets
           states,   \* [side -> applied states, index = seqNum]
           wire,     \* in-flight frames [seq, ks, keys]
           nenc,     \* frames encoded so far
-          last      \* outcome of the last Decode
-vars == <<script, issued, queue, states, wire, nenc, last>>
+          last,     \* outcome of the last Decode
+          flag,     \* [side -> c.mu.updateAvailable]
+          pend      \* [side -> state whose push is still to come ({} = none)]
+vars == <<script, issued, queue, states, wire, nenc, last, flag, pend>>
 
 NoLast == [kind |-> "none", seq |-> 0, ks |-> {}, used |-> {}, keys |-> {}, n |-> 0]
 Init == /\ script = <<>>
@@ -52,22 +63,44 @@ Init == /\ script = <<>>
         /\ queue = [s \in Sides |-> <<>>]
         /\ states = [s \in Sides |-> <<>>]
         /\ wire = <<>> /\ nenc = 0 /\ last = NoLast
+        /\ flag = [s \in Sides |-> FALSE] /\ pend = [s \in Sides |-> {}]
 
 Abs(x) == IF x < 0 THEN -x ELSE x
 Other(s) == IF s = "enc" THEN "dec" ELSE "enc"
 
-\* Codec.Update on one side with the next channel set of the script (extending the script
-\* when this side is the first to learn about the change)
-Update(s, ks) ==
+\* the script discipline shared by both forms of Update
+Scripted(s, ks) ==
   /\ Abs(issued[s] + 1 - issued[Other(s)]) <= Apart
   /\ IF issued[s] < Len(script)
      THEN ks = script[issued[s] + 1] /\ UNCHANGED script
      ELSE Len(script) < MaxUpdates /\ script' = Append(script, ks)
   /\ issued' = [issued EXCEPT ![s] = @ + 1]
-  /\ queue' = [queue EXCEPT ![s] = Append(@, ks)]
-  /\ UNCHANGED <<states, wire, nenc, last>>
 
-Applied(s) == states[s] \o queue[s]     \* states after processUpdates
+\* Codec.Update on one side with the next channel set of the script (extending the script
+\* when this side is the first to learn about the change), as one step
+Update(s, ks) ==
+  /\ ~SplitUpdate
+  /\ Scripted(s, ks)
+  /\ flag' = [flag EXCEPT ![s] = TRUE]
+  /\ queue' = [queue EXCEPT ![s] = Append(@, ks)]
+  /\ UNCHANGED <<states, wire, nenc, last, pend>>
+
+\* ... and as the two steps of Codec.update
+UpdateStore(s, ks) ==
+  /\ SplitUpdate /\ pend[s] = {}
+  /\ Scripted(s, ks)
+  /\ flag' = [flag EXCEPT ![s] = TRUE]          \* c.mu.updateAvailable.Store(true)
+  /\ pend' = [pend EXCEPT ![s] = ks]
+  /\ UNCHANGED <<queue, states, wire, nenc, last>>
+UpdatePush(s) ==
+  /\ SplitUpdate /\ pend[s] # {}
+  /\ queue' = [queue EXCEPT ![s] = Append(@, pend[s])]   \* c.mu.updates <- s
+  /\ pend' = [pend EXCEPT ![s] = {}]
+  /\ UNCHANGED <<script, issued, states, wire, nenc, last, flag>>
+
+\* processUpdates: only when the flag is set (CompareAndSwap(true, false)), then drain
+Applied(s) == IF flag[s] THEN states[s] \o queue[s] ELSE states[s]
+Drained(s) == IF flag[s] THEN <<>> ELSE queue[s]
 
 Encode(P) ==
   /\ Len(Applied("enc")) >= 1           \* documented precondition (panicIfNotUpdated)
@@ -75,10 +108,11 @@ Encode(P) ==
   /\ LET st == Applied("enc")
          sq == Len(st)
      IN /\ states' = [states EXCEPT !["enc"] = st]
-        /\ queue' = [queue EXCEPT !["enc"] = <<>>]
+        /\ queue' = [queue EXCEPT !["enc"] = Drained("enc")]
         /\ wire' = Append(wire, [seq |-> sq, ks |-> st[sq], keys |-> P \cap st[sq]])
+  /\ flag' = [flag EXCEPT !["enc"] = FALSE]
   /\ nenc' = nenc + 1
-  /\ UNCHANGED <<script, issued, last>>
+  /\ UNCHANGED <<script, issued, last, pend>>
 
 Decode ==
   /\ wire # <<>>
@@ -86,16 +120,18 @@ Decode ==
   /\ LET st == Applied("dec")
          f == Head(wire)
      IN /\ states' = [states EXCEPT !["dec"] = st]
-        /\ queue' = [queue EXCEPT !["dec"] = <<>>]
+        /\ queue' = [queue EXCEPT !["dec"] = Drained("dec")]
         /\ last' = IF f.seq \in 1..Len(st)
                    THEN [kind |-> "frame", seq |-> f.seq, ks |-> f.ks, used |-> st[f.seq],
                          keys |-> f.keys, n |-> Len(st)]
                    ELSE [kind |-> "error", seq |-> f.seq, ks |-> f.ks, used |-> {},
                          keys |-> f.keys, n |-> Len(st)]
+  /\ flag' = [flag EXCEPT !["dec"] = FALSE]
   /\ wire' = Tail(wire)
-  /\ UNCHANGED <<script, issued, nenc>>
+  /\ UNCHANGED <<script, issued, nenc, pend>>
 
-Next == \/ \E s \in Sides, ks \in KeySets : Update(s, ks)
+Next == \/ \E s \in Sides, ks \in KeySets : Update(s, ks) \/ UpdateStore(s, ks)
+        \/ \E s \in Sides : UpdatePush(s)
         \/ \E P \in Presents : Encode(P)
         \/ Decode
 Spec == Init /\ [][Next]_vars
@@ -106,7 +142,8 @@ TypeOK == /\ \A i \in DOMAIN script : script[i] \in KeySets
           /\ Len(wire) <= MaxInFlight
 
 \* each side holds exactly the prefix of the script it was given, applied part first
-PrefixAgreement == \A s \in Sides : Applied(s) = SubSeq(script, 1, issued[s])
+Given(s) == states[s] \o queue[s] \o (IF pend[s] = {} THEN <<>> ELSE <<pend[s]>>)
+PrefixAgreement == \A s \in Sides : Given(s) = SubSeq(script, 1, issued[s])
 
 \* every in-flight frame is tagged with a seq under which the encoder used exactly f.ks
 WireTagged == \A i \in DOMAIN wire :
@@ -120,6 +157,9 @@ DecodeUsesEncodersState == last.kind = "frame" => last.used = last.ks
 \* with some other state; and a seq the decoder has been told about always decodes
 UnknownSeqIsError == /\ last.kind = "error" => last.seq > last.n
                      /\ last.kind = "frame" => last.seq <= last.n
+
+\* a queued state is always announced by the flag, so the next Encode/Decode applies it
+NoStrandedUpdate == \A s \in Sides : queue[s] # <<>> => flag[s]
 
 \* probes for vacuity (expected VIOLATED)
 ProbeDecAhead == ~(last.kind = "frame" /\ last.seq < last.n)
